@@ -12,6 +12,9 @@ package generate
 //@ pure cfgKept(g *Generator) = (old(cfg(g)) != nil ==> cfg(g) == old(cfg(g)))
 //@ pure linuxKept(g *Generator) = cfgKept(g) && (old(cfg(g).Linux) != nil ==> cfg(g).Linux == old(cfg(g).Linux))
 //@ pure processKept(g *Generator) = cfgKept(g) && (old(cfg(g).Process) != nil ==> cfg(g).Process == old(cfg(g).Process))
+//@ pure sectionsKept(g *Generator) = cfgKept(g) && (old(cfg(g).Process) != nil ==> cfg(g).Process == old(cfg(g).Process)) && (old(cfg(g).Linux) != nil ==> cfg(g).Linux == old(cfg(g).Linux))
+// the same, relative to the state at loop entry
+//@ pure sectionsKeptL(g *Generator) = (pre(cfg(g)) != nil ==> cfg(g) == pre(cfg(g))) && (pre(cfg(g).Process) != nil ==> cfg(g).Process == pre(cfg(g).Process)) && (pre(cfg(g).Linux) != nil ==> cfg(g).Linux == pre(cfg(g).Linux))
 
 //@ func Generator.AdjustCgroupsPath
 //@   props C13
@@ -95,6 +98,7 @@ package generate
 //@   props C13
 //@   requires g != nil && g.Generator != nil && g.filterAnnotations != nil
 //@   modifies g.Generator.Config, g.Generator.Config.Annotations, map(g.Generator.Config.Annotations), calls("func:generate.Generator.filterAnnotations")
+//@   ensures [sect]   sectionsKept(g)
 //@   ensures [filter] ncalls("func:generate.Generator.filterAnnotations") == old(ncalls("func:generate.Generator.filterAnnotations")) + 1
 //@   ensures [err]    callret("func:generate.Generator.filterAnnotations", old(ncalls("func:generate.Generator.filterAnnotations")), 1) != nil ==> result != nil && cfg(g) == old(cfg(g)) && amap(g) == old(amap(g))
 //@   ensures [ok]     callret("func:generate.Generator.filterAnnotations", old(ncalls("func:generate.Generator.filterAnnotations")), 1) == nil ==> result == nil
@@ -119,3 +123,311 @@ package generate
 //@   loop 2 invariant annotations != old(amap(g)) ==> (forall k string :: has(annotations, "-" + k) && !(visited(k) && !marked(k)) ==> !has(amap(g), k))
 //@   loop 2 invariant annotations != old(amap(g)) ==> (forall k string :: !has(annotations, "-" + k) && !(visited(k) && !marked(k)) ==> has(amap(g), k) == old(has(amap(g), k)) && amap(g)[k] == old(amap(g)[k]))
 //@   loop 2 invariant annotations != old(amap(g)) ==> (forall k string :: has(annotations, k) == pre(has(annotations, k)) && annotations[k] == pre(annotations[k]))
+//@ pure noNilHPg(s []*nri.HugepageLimit) = forall i int :: 0 <= i && i < len(s) ==> allocated(s[i])
+
+// -- resources: every field the adjustment sets appears in the spec with that value
+//@ pure sres(g *Generator) = g.Generator.Config.Linux.Resources
+// assumed (the function has a loop): it creates the sections it needs and writes only the hugepage list
+//@ extern (*github.com/opencontainers/runtime-tools/generate.Generator).AddLinuxResourcesHugepageLimit(g *generate.Generator, pageSize string, limit uint64)
+//@   modifies g.Config, g.Config.Linux, g.Config.Linux.Resources, g.Config.Linux.Resources.HugepageLimits, elems(g.Config.Linux.Resources.HugepageLimits)
+//@   ensures g.Config != nil && g.Config.Linux != nil && g.Config.Linux.Resources != nil && (old(g.Config.Process) != nil ==> g.Config.Process == old(g.Config.Process))
+//@   ensures (old(g.Config) != nil ==> g.Config == old(g.Config)) && (old(g.Config.Linux) != nil ==> g.Config.Linux == old(g.Config.Linux)) && (old(g.Config.Linux.Resources) != nil ==> g.Config.Linux.Resources == old(g.Config.Linux.Resources))
+//@   ensures (old(g.Config) == nil ==> fresh(g.Config)) && (old(g.Config.Linux) == nil ==> fresh(g.Config.Linux)) && (old(g.Config.Linux.Resources) == nil ==> fresh(g.Config.Linux.Resources) && zeroedexcept(g.Config.Linux.Resources, "HugepageLimits"))
+//@   ensures base(g.Config.Linux.Resources.HugepageLimits) == old(base(g.Config.Linux.Resources.HugepageLimits)) || fresh(g.Config.Linux.Resources.HugepageLimits)
+
+//@ func Generator.AdjustResources
+//@   props C13
+//@   requires g != nil && g.Generator != nil && (r != nil ==> noNilHPg(r.HugepageLimits))
+//@   modifies @writes
+//@   ensures [nil]    r == nil ==> result == nil && cfg(g) == old(cfg(g))
+//@   ensures [kept]   sectionsKept(g) && (old(cfg(g).Linux.Resources) != nil ==> sres(g) == old(cfg(g).Linux.Resources))
+//@   ensures [sect]   r != nil ==> cfg(g) != nil && cfg(g).Linux != nil
+//@   ensures [cpu.Period] r != nil && r.Cpu != nil && r.Cpu.Period != nil ==> sres(g) != nil && sres(g).CPU != nil && sres(g).CPU.Period != nil && deref(sres(g).CPU.Period) == r.Cpu.Period.Value
+//@   ensures [cpu.Period.keep] r != nil && (r.Cpu == nil || r.Cpu.Period == nil) && old(sres(g).CPU) != nil ==> sres(g).CPU.Period == old(sres(g).CPU.Period)
+//@   ensures [cpu.Quota] r != nil && r.Cpu != nil && r.Cpu.Quota != nil ==> sres(g) != nil && sres(g).CPU != nil && sres(g).CPU.Quota != nil && deref(sres(g).CPU.Quota) == r.Cpu.Quota.Value
+//@   ensures [cpu.Quota.keep] r != nil && (r.Cpu == nil || r.Cpu.Quota == nil) && old(sres(g).CPU) != nil ==> sres(g).CPU.Quota == old(sres(g).CPU.Quota)
+//@   ensures [cpu.Shares] r != nil && r.Cpu != nil && r.Cpu.Shares != nil ==> sres(g) != nil && sres(g).CPU != nil && sres(g).CPU.Shares != nil && deref(sres(g).CPU.Shares) == r.Cpu.Shares.Value
+//@   ensures [cpu.Shares.keep] r != nil && (r.Cpu == nil || r.Cpu.Shares == nil) && old(sres(g).CPU) != nil ==> sres(g).CPU.Shares == old(sres(g).CPU.Shares)
+//@   ensures [cpu.RealtimeRuntime] r != nil && r.Cpu != nil && r.Cpu.RealtimeRuntime != nil ==> sres(g) != nil && sres(g).CPU != nil && sres(g).CPU.RealtimeRuntime != nil && deref(sres(g).CPU.RealtimeRuntime) == r.Cpu.RealtimeRuntime.Value
+//@   ensures [cpu.RealtimeRuntime.keep] r != nil && (r.Cpu == nil || r.Cpu.RealtimeRuntime == nil) && old(sres(g).CPU) != nil ==> sres(g).CPU.RealtimeRuntime == old(sres(g).CPU.RealtimeRuntime)
+//@   ensures [cpu.RealtimePeriod] r != nil && r.Cpu != nil && r.Cpu.RealtimePeriod != nil ==> sres(g) != nil && sres(g).CPU != nil && sres(g).CPU.RealtimePeriod != nil && deref(sres(g).CPU.RealtimePeriod) == r.Cpu.RealtimePeriod.Value
+//@   ensures [cpu.RealtimePeriod.keep] r != nil && (r.Cpu == nil || r.Cpu.RealtimePeriod == nil) && old(sres(g).CPU) != nil ==> sres(g).CPU.RealtimePeriod == old(sres(g).CPU.RealtimePeriod)
+//@   ensures [cpu.Cpus] r != nil && r.Cpu != nil && r.Cpu.Cpus != "" ==> sres(g) != nil && sres(g).CPU != nil && sres(g).CPU.Cpus == r.Cpu.Cpus
+//@   ensures [cpu.Cpus.keep] r != nil && (r.Cpu == nil || r.Cpu.Cpus == "") && old(sres(g).CPU) != nil ==> sres(g).CPU.Cpus == old(sres(g).CPU.Cpus)
+//@   ensures [cpu.Mems] r != nil && r.Cpu != nil && r.Cpu.Mems != "" ==> sres(g) != nil && sres(g).CPU != nil && sres(g).CPU.Mems == r.Cpu.Mems
+//@   ensures [cpu.Mems.keep] r != nil && (r.Cpu == nil || r.Cpu.Mems == "") && old(sres(g).CPU) != nil ==> sres(g).CPU.Mems == old(sres(g).CPU.Mems)
+//@   ensures [mem]    r != nil && r.Memory != nil && r.Memory.Limit != nil && r.Memory.Limit.Value != 0 ==> sres(g) != nil && sres(g).Memory != nil && sres(g).Memory.Limit != nil && deref(sres(g).Memory.Limit) == r.Memory.Limit.Value
+//@                    && sres(g).Memory.Swap != nil && deref(sres(g).Memory.Swap) == r.Memory.Limit.Value
+//@   ensures [mem.keep] r != nil && (r.Memory == nil || r.Memory.Limit == nil || r.Memory.Limit.Value == 0) && old(sres(g).Memory) != nil ==> sres(g).Memory.Limit == old(sres(g).Memory.Limit) && sres(g).Memory.Swap == old(sres(g).Memory.Swap)
+//@   ensures [pids]   r != nil && r.Pids != nil ==> sres(g) != nil && sres(g).Pids != nil && sres(g).Pids.Limit == r.Pids.Limit
+//@   ensures [uni]    r != nil && r.Unified != old(sres(g).Unified) ==> (forall k string :: has(r.Unified, k) ==> has(sres(g).Unified, k) && sres(g).Unified[k] == r.Unified[k])
+//@   ensures [uni.keep] r != nil && r.Unified != old(sres(g).Unified) ==> (forall k string :: !has(r.Unified, k) ==> has(sres(g).Unified, k) == old(has(sres(g).Unified, k)) && sres(g).Unified[k] == old(sres(g).Unified[k]))
+//@   ensures [check]  r != nil && g.checkResources != nil ==> ncalls("func:generate.Generator.checkResources") == old(ncalls("func:generate.Generator.checkResources")) + 1
+//@                    && callarg("func:generate.Generator.checkResources", old(ncalls("func:generate.Generator.checkResources")), 1) == sres(g)
+//@                    && ((callret("func:generate.Generator.checkResources", old(ncalls("func:generate.Generator.checkResources")), 0) != nil) <==> (result != nil))
+//@   ensures [nocheck] r != nil && g.checkResources == nil ==> result == nil
+//@   loop 1 modifies cfg(g).Linux.Resources, sres(g).HugepageLimits, elems(sres(g).HugepageLimits)
+//@   loop 1 invariant 0 <= idx + 1 && idx + 1 <= len(r.HugepageLimits) && cfg(g) != nil && cfg(g).Linux != nil && linuxKept(g) && cfg(g) == pre(cfg(g)) && cfg(g).Linux == pre(cfg(g).Linux)
+//@   loop 1 invariant (pre(sres(g)) != nil ==> sres(g) == pre(sres(g))) && (pre(sres(g)) == nil && sres(g) != nil ==> prefresh(sres(g)) && zeroedexcept(sres(g), "HugepageLimits"))
+//@   loop 1 invariant base(sres(g).HugepageLimits) == pre(base(sres(g).HugepageLimits)) || prefresh(sres(g).HugepageLimits)
+//@   loop 2 modifies cfg(g).Linux.Resources, sres(g).Unified, map(sres(g).Unified)
+//@   loop 2 invariant cfg(g) != nil && cfg(g).Linux != nil && linuxKept(g) && cfg(g) == pre(cfg(g)) && cfg(g).Linux == pre(cfg(g).Linux)
+//@   loop 2 invariant (pre(sres(g)) != nil ==> sres(g) == pre(sres(g))) && (pre(sres(g)) == nil && sres(g) != nil ==> prefresh(sres(g)) && zeroedexcept(sres(g), "Unified"))
+//@   loop 2 invariant (pre(sres(g).Unified) != nil ==> sres(g).Unified == pre(sres(g).Unified)) && (pre(sres(g).Unified) == nil && sres(g).Unified != nil ==> prefresh(sres(g).Unified))
+//@   loop 2 invariant r.Unified != pre(sres(g).Unified) ==> (forall k string :: visited(k) ==> has(sres(g).Unified, k) && sres(g).Unified[k] == r.Unified[k])
+//@   loop 2 invariant r.Unified != pre(sres(g).Unified) ==> (forall k string :: !visited(k) ==> has(sres(g).Unified, k) == pre(has(sres(g).Unified, k)) && sres(g).Unified[k] == pre(sres(g).Unified[k]))
+//@   loop 2 invariant r.Unified != pre(sres(g).Unified) ==> (forall k string :: has(r.Unified, k) == pre(has(r.Unified, k)) && r.Unified[k] == pre(r.Unified[k])) && (forall j string :: visited(j) ==> has(r.Unified, j))
+
+// -- hooks: every given hook is converted field by field and handed, in order, to the adder of its kind
+//@ pure sameStrsG(a []string, b []string) = len(a) == len(b) && (forall i int :: 0 <= i && i < len(b) ==> a[i] == b[i])
+//@ pure hookIs(x rspec.Hook, h *nri.Hook) = x.Path == h.Path && sameStrsG(x.Args, h.Args) && sameStrsG(x.Env, h.Env)
+//@      && (h.Timeout == nil ==> x.Timeout == nil) && (h.Timeout != nil ==> x.Timeout != nil && deref(x.Timeout) == int(h.Timeout.Value))
+//@ pure noNilHooks(s []*nri.Hook) = forall i int :: 0 <= i && i < len(s) ==> allocated(s[i])
+//@ pure shooks(g *Generator) = g.Generator.Config.Hooks
+// the three adders of the embedded generator: assumed to touch only their own list (their bodies are one append)
+//@ extern (*github.com/opencontainers/runtime-tools/generate.Generator).AddPreStartHook(g *generate.Generator, hook rspec.Hook)
+//@   modifies g.Config, g.Config.Hooks, g.Config.Hooks.Prestart, elems(g.Config.Hooks.Prestart)
+//@   ensures (old(g.Config) != nil ==> g.Config == old(g.Config)) && (old(g.Config.Process) != nil ==> g.Config.Process == old(g.Config.Process)) && (old(g.Config.Linux) != nil ==> g.Config.Linux == old(g.Config.Linux))
+//@ extern (*github.com/opencontainers/runtime-tools/generate.Generator).AddPostStartHook(g *generate.Generator, hook rspec.Hook)
+//@   modifies g.Config, g.Config.Hooks, g.Config.Hooks.Poststart, elems(g.Config.Hooks.Poststart)
+//@   ensures (old(g.Config) != nil ==> g.Config == old(g.Config)) && (old(g.Config.Process) != nil ==> g.Config.Process == old(g.Config.Process)) && (old(g.Config.Linux) != nil ==> g.Config.Linux == old(g.Config.Linux))
+//@ extern (*github.com/opencontainers/runtime-tools/generate.Generator).AddPostStopHook(g *generate.Generator, hook rspec.Hook)
+//@   modifies g.Config, g.Config.Hooks, g.Config.Hooks.Poststop, elems(g.Config.Hooks.Poststop)
+//@   ensures (old(g.Config) != nil ==> g.Config == old(g.Config)) && (old(g.Config.Process) != nil ==> g.Config.Process == old(g.Config.Process)) && (old(g.Config.Linux) != nil ==> g.Config.Linux == old(g.Config.Linux))
+// the three adders defined here: one append to their own list
+//@ func Generator.AddCreateRuntimeHook
+//@   props C13
+//@   logs generate.AddCreateRuntimeHook
+//@   requires g != nil && g.Generator != nil
+//@   modifies g.Generator.Config, g.Generator.Config.Hooks, g.Generator.Config.Hooks.CreateRuntime, elems(g.Generator.Config.Hooks.CreateRuntime)
+//@   ensures [app]  shooks(g) != nil && len(shooks(g).CreateRuntime) == old(len(shooks(g).CreateRuntime)) + 1 && shooks(g).CreateRuntime[old(len(shooks(g).CreateRuntime))] == hook
+//@   ensures [pre]  forall i int :: 0 <= i && i < old(len(shooks(g).CreateRuntime)) ==> shooks(g).CreateRuntime[i] == old(shooks(g).CreateRuntime[i])
+//@   ensures [kept] cfgKept(g) && (old(shooks(g)) != nil ==> shooks(g) == old(shooks(g)))
+//@ func Generator.AddCreateContainerHook
+//@   props C13
+//@   logs generate.AddCreateContainerHook
+//@   requires g != nil && g.Generator != nil
+//@   modifies g.Generator.Config, g.Generator.Config.Hooks, g.Generator.Config.Hooks.CreateContainer, elems(g.Generator.Config.Hooks.CreateContainer)
+//@   ensures [app]  shooks(g) != nil && len(shooks(g).CreateContainer) == old(len(shooks(g).CreateContainer)) + 1 && shooks(g).CreateContainer[old(len(shooks(g).CreateContainer))] == hook
+//@   ensures [pre]  forall i int :: 0 <= i && i < old(len(shooks(g).CreateContainer)) ==> shooks(g).CreateContainer[i] == old(shooks(g).CreateContainer[i])
+//@   ensures [kept] cfgKept(g) && (old(shooks(g)) != nil ==> shooks(g) == old(shooks(g)))
+//@ func Generator.AddStartContainerHook
+//@   props C13
+//@   logs generate.AddStartContainerHook
+//@   requires g != nil && g.Generator != nil
+//@   modifies g.Generator.Config, g.Generator.Config.Hooks, g.Generator.Config.Hooks.StartContainer, elems(g.Generator.Config.Hooks.StartContainer)
+//@   ensures [app]  shooks(g) != nil && len(shooks(g).StartContainer) == old(len(shooks(g).StartContainer)) + 1 && shooks(g).StartContainer[old(len(shooks(g).StartContainer))] == hook
+//@   ensures [pre]  forall i int :: 0 <= i && i < old(len(shooks(g).StartContainer)) ==> shooks(g).StartContainer[i] == old(shooks(g).StartContainer[i])
+//@   ensures [kept] cfgKept(g) && (old(shooks(g)) != nil ==> shooks(g) == old(shooks(g)))
+//@ func Generator.AdjustHooks
+//@   props C13
+//@   requires g != nil && g.Generator != nil && (hooks != nil ==> noNilHooks(hooks.Prestart) && noNilHooks(hooks.Poststart) && noNilHooks(hooks.Poststop) && noNilHooks(hooks.CreateRuntime) && noNilHooks(hooks.CreateContainer) && noNilHooks(hooks.StartContainer))
+//@   modifies @writes
+//@   ensures [sect] sectionsKept(g)
+//@   ensures [Prestart.nil] hooks == nil ==> ncalls("(*github.com/opencontainers/runtime-tools/generate.Generator).AddPreStartHook") == old(ncalls("(*github.com/opencontainers/runtime-tools/generate.Generator).AddPreStartHook"))
+//@   ensures [Prestart] hooks != nil ==> ncalls("(*github.com/opencontainers/runtime-tools/generate.Generator).AddPreStartHook") == old(ncalls("(*github.com/opencontainers/runtime-tools/generate.Generator).AddPreStartHook")) + len(hooks.Prestart)
+//@                  && (forall i int :: 0 <= i && i < len(hooks.Prestart) ==> callarg("(*github.com/opencontainers/runtime-tools/generate.Generator).AddPreStartHook", old(ncalls("(*github.com/opencontainers/runtime-tools/generate.Generator).AddPreStartHook")) + i, 0) == g.Generator && hookIs(callarg("(*github.com/opencontainers/runtime-tools/generate.Generator).AddPreStartHook", old(ncalls("(*github.com/opencontainers/runtime-tools/generate.Generator).AddPreStartHook")) + i, 1), hooks.Prestart[i]))
+//@   ensures [Poststart.nil] hooks == nil ==> ncalls("(*github.com/opencontainers/runtime-tools/generate.Generator).AddPostStartHook") == old(ncalls("(*github.com/opencontainers/runtime-tools/generate.Generator).AddPostStartHook"))
+//@   ensures [Poststart] hooks != nil ==> ncalls("(*github.com/opencontainers/runtime-tools/generate.Generator).AddPostStartHook") == old(ncalls("(*github.com/opencontainers/runtime-tools/generate.Generator).AddPostStartHook")) + len(hooks.Poststart)
+//@                  && (forall i int :: 0 <= i && i < len(hooks.Poststart) ==> callarg("(*github.com/opencontainers/runtime-tools/generate.Generator).AddPostStartHook", old(ncalls("(*github.com/opencontainers/runtime-tools/generate.Generator).AddPostStartHook")) + i, 0) == g.Generator && hookIs(callarg("(*github.com/opencontainers/runtime-tools/generate.Generator).AddPostStartHook", old(ncalls("(*github.com/opencontainers/runtime-tools/generate.Generator).AddPostStartHook")) + i, 1), hooks.Poststart[i]))
+//@   ensures [Poststop.nil] hooks == nil ==> ncalls("(*github.com/opencontainers/runtime-tools/generate.Generator).AddPostStopHook") == old(ncalls("(*github.com/opencontainers/runtime-tools/generate.Generator).AddPostStopHook"))
+//@   ensures [Poststop] hooks != nil ==> ncalls("(*github.com/opencontainers/runtime-tools/generate.Generator).AddPostStopHook") == old(ncalls("(*github.com/opencontainers/runtime-tools/generate.Generator).AddPostStopHook")) + len(hooks.Poststop)
+//@                  && (forall i int :: 0 <= i && i < len(hooks.Poststop) ==> callarg("(*github.com/opencontainers/runtime-tools/generate.Generator).AddPostStopHook", old(ncalls("(*github.com/opencontainers/runtime-tools/generate.Generator).AddPostStopHook")) + i, 0) == g.Generator && hookIs(callarg("(*github.com/opencontainers/runtime-tools/generate.Generator).AddPostStopHook", old(ncalls("(*github.com/opencontainers/runtime-tools/generate.Generator).AddPostStopHook")) + i, 1), hooks.Poststop[i]))
+//@   ensures [CreateRuntime.nil] hooks == nil ==> ncalls("generate.AddCreateRuntimeHook") == old(ncalls("generate.AddCreateRuntimeHook"))
+//@   ensures [CreateRuntime] hooks != nil ==> ncalls("generate.AddCreateRuntimeHook") == old(ncalls("generate.AddCreateRuntimeHook")) + len(hooks.CreateRuntime)
+//@                  && (forall i int :: 0 <= i && i < len(hooks.CreateRuntime) ==> callarg("generate.AddCreateRuntimeHook", old(ncalls("generate.AddCreateRuntimeHook")) + i, 0) == g && hookIs(callarg("generate.AddCreateRuntimeHook", old(ncalls("generate.AddCreateRuntimeHook")) + i, 1), hooks.CreateRuntime[i]))
+//@   ensures [CreateContainer.nil] hooks == nil ==> ncalls("generate.AddCreateContainerHook") == old(ncalls("generate.AddCreateContainerHook"))
+//@   ensures [CreateContainer] hooks != nil ==> ncalls("generate.AddCreateContainerHook") == old(ncalls("generate.AddCreateContainerHook")) + len(hooks.CreateContainer)
+//@                  && (forall i int :: 0 <= i && i < len(hooks.CreateContainer) ==> callarg("generate.AddCreateContainerHook", old(ncalls("generate.AddCreateContainerHook")) + i, 0) == g && hookIs(callarg("generate.AddCreateContainerHook", old(ncalls("generate.AddCreateContainerHook")) + i, 1), hooks.CreateContainer[i]))
+//@   ensures [StartContainer.nil] hooks == nil ==> ncalls("generate.AddStartContainerHook") == old(ncalls("generate.AddStartContainerHook"))
+//@   ensures [StartContainer] hooks != nil ==> ncalls("generate.AddStartContainerHook") == old(ncalls("generate.AddStartContainerHook")) + len(hooks.StartContainer)
+//@                  && (forall i int :: 0 <= i && i < len(hooks.StartContainer) ==> callarg("generate.AddStartContainerHook", old(ncalls("generate.AddStartContainerHook")) + i, 0) == g && hookIs(callarg("generate.AddStartContainerHook", old(ncalls("generate.AddStartContainerHook")) + i, 1), hooks.StartContainer[i]))
+//@   loop 1 invariant 0 <= idx + 1 && idx + 1 <= len(hooks.Prestart) && ncalls("(*github.com/opencontainers/runtime-tools/generate.Generator).AddPreStartHook") == pre(ncalls("(*github.com/opencontainers/runtime-tools/generate.Generator).AddPreStartHook")) + idx + 1 && sectionsKept(g)
+//@   loop 1 invariant forall i int :: 0 <= i && i <= idx ==> callarg("(*github.com/opencontainers/runtime-tools/generate.Generator).AddPreStartHook", pre(ncalls("(*github.com/opencontainers/runtime-tools/generate.Generator).AddPreStartHook")) + i, 0) == g.Generator && hookIs(callarg("(*github.com/opencontainers/runtime-tools/generate.Generator).AddPreStartHook", pre(ncalls("(*github.com/opencontainers/runtime-tools/generate.Generator).AddPreStartHook")) + i, 1), hooks.Prestart[i])
+//@   loop 2 invariant 0 <= idx + 1 && idx + 1 <= len(hooks.Poststart) && ncalls("(*github.com/opencontainers/runtime-tools/generate.Generator).AddPostStartHook") == pre(ncalls("(*github.com/opencontainers/runtime-tools/generate.Generator).AddPostStartHook")) + idx + 1 && sectionsKept(g)
+//@   loop 2 invariant forall i int :: 0 <= i && i <= idx ==> callarg("(*github.com/opencontainers/runtime-tools/generate.Generator).AddPostStartHook", pre(ncalls("(*github.com/opencontainers/runtime-tools/generate.Generator).AddPostStartHook")) + i, 0) == g.Generator && hookIs(callarg("(*github.com/opencontainers/runtime-tools/generate.Generator).AddPostStartHook", pre(ncalls("(*github.com/opencontainers/runtime-tools/generate.Generator).AddPostStartHook")) + i, 1), hooks.Poststart[i])
+//@   loop 2 invariant forall i int :: 0 <= i && i < len(hooks.Prestart) ==> hookIs(callarg("(*github.com/opencontainers/runtime-tools/generate.Generator).AddPreStartHook", old(ncalls("(*github.com/opencontainers/runtime-tools/generate.Generator).AddPreStartHook")) + i, 1), hooks.Prestart[i])
+//@   loop 3 invariant 0 <= idx + 1 && idx + 1 <= len(hooks.Poststop) && ncalls("(*github.com/opencontainers/runtime-tools/generate.Generator).AddPostStopHook") == pre(ncalls("(*github.com/opencontainers/runtime-tools/generate.Generator).AddPostStopHook")) + idx + 1 && sectionsKept(g)
+//@   loop 3 invariant forall i int :: 0 <= i && i <= idx ==> callarg("(*github.com/opencontainers/runtime-tools/generate.Generator).AddPostStopHook", pre(ncalls("(*github.com/opencontainers/runtime-tools/generate.Generator).AddPostStopHook")) + i, 0) == g.Generator && hookIs(callarg("(*github.com/opencontainers/runtime-tools/generate.Generator).AddPostStopHook", pre(ncalls("(*github.com/opencontainers/runtime-tools/generate.Generator).AddPostStopHook")) + i, 1), hooks.Poststop[i])
+//@   loop 3 invariant forall i int :: 0 <= i && i < len(hooks.Prestart) ==> hookIs(callarg("(*github.com/opencontainers/runtime-tools/generate.Generator).AddPreStartHook", old(ncalls("(*github.com/opencontainers/runtime-tools/generate.Generator).AddPreStartHook")) + i, 1), hooks.Prestart[i])
+//@   loop 3 invariant forall i int :: 0 <= i && i < len(hooks.Poststart) ==> hookIs(callarg("(*github.com/opencontainers/runtime-tools/generate.Generator).AddPostStartHook", old(ncalls("(*github.com/opencontainers/runtime-tools/generate.Generator).AddPostStartHook")) + i, 1), hooks.Poststart[i])
+//@   loop 4 invariant 0 <= idx + 1 && idx + 1 <= len(hooks.CreateRuntime) && ncalls("generate.AddCreateRuntimeHook") == pre(ncalls("generate.AddCreateRuntimeHook")) + idx + 1 && sectionsKept(g)
+//@   loop 4 invariant forall i int :: 0 <= i && i <= idx ==> callarg("generate.AddCreateRuntimeHook", pre(ncalls("generate.AddCreateRuntimeHook")) + i, 0) == g && hookIs(callarg("generate.AddCreateRuntimeHook", pre(ncalls("generate.AddCreateRuntimeHook")) + i, 1), hooks.CreateRuntime[i])
+//@   loop 4 invariant forall i int :: 0 <= i && i < len(hooks.Prestart) ==> hookIs(callarg("(*github.com/opencontainers/runtime-tools/generate.Generator).AddPreStartHook", old(ncalls("(*github.com/opencontainers/runtime-tools/generate.Generator).AddPreStartHook")) + i, 1), hooks.Prestart[i])
+//@   loop 4 invariant forall i int :: 0 <= i && i < len(hooks.Poststart) ==> hookIs(callarg("(*github.com/opencontainers/runtime-tools/generate.Generator).AddPostStartHook", old(ncalls("(*github.com/opencontainers/runtime-tools/generate.Generator).AddPostStartHook")) + i, 1), hooks.Poststart[i])
+//@   loop 4 invariant forall i int :: 0 <= i && i < len(hooks.Poststop) ==> hookIs(callarg("(*github.com/opencontainers/runtime-tools/generate.Generator).AddPostStopHook", old(ncalls("(*github.com/opencontainers/runtime-tools/generate.Generator).AddPostStopHook")) + i, 1), hooks.Poststop[i])
+//@   loop 5 invariant 0 <= idx + 1 && idx + 1 <= len(hooks.CreateContainer) && ncalls("generate.AddCreateContainerHook") == pre(ncalls("generate.AddCreateContainerHook")) + idx + 1 && sectionsKept(g)
+//@   loop 5 invariant forall i int :: 0 <= i && i <= idx ==> callarg("generate.AddCreateContainerHook", pre(ncalls("generate.AddCreateContainerHook")) + i, 0) == g && hookIs(callarg("generate.AddCreateContainerHook", pre(ncalls("generate.AddCreateContainerHook")) + i, 1), hooks.CreateContainer[i])
+//@   loop 5 invariant forall i int :: 0 <= i && i < len(hooks.Prestart) ==> hookIs(callarg("(*github.com/opencontainers/runtime-tools/generate.Generator).AddPreStartHook", old(ncalls("(*github.com/opencontainers/runtime-tools/generate.Generator).AddPreStartHook")) + i, 1), hooks.Prestart[i])
+//@   loop 5 invariant forall i int :: 0 <= i && i < len(hooks.Poststart) ==> hookIs(callarg("(*github.com/opencontainers/runtime-tools/generate.Generator).AddPostStartHook", old(ncalls("(*github.com/opencontainers/runtime-tools/generate.Generator).AddPostStartHook")) + i, 1), hooks.Poststart[i])
+//@   loop 5 invariant forall i int :: 0 <= i && i < len(hooks.Poststop) ==> hookIs(callarg("(*github.com/opencontainers/runtime-tools/generate.Generator).AddPostStopHook", old(ncalls("(*github.com/opencontainers/runtime-tools/generate.Generator).AddPostStopHook")) + i, 1), hooks.Poststop[i])
+//@   loop 5 invariant forall i int :: 0 <= i && i < len(hooks.CreateRuntime) ==> hookIs(callarg("generate.AddCreateRuntimeHook", old(ncalls("generate.AddCreateRuntimeHook")) + i, 1), hooks.CreateRuntime[i])
+//@   loop 6 invariant 0 <= idx + 1 && idx + 1 <= len(hooks.StartContainer) && ncalls("generate.AddStartContainerHook") == pre(ncalls("generate.AddStartContainerHook")) + idx + 1 && sectionsKept(g)
+//@   loop 6 invariant forall i int :: 0 <= i && i <= idx ==> callarg("generate.AddStartContainerHook", pre(ncalls("generate.AddStartContainerHook")) + i, 0) == g && hookIs(callarg("generate.AddStartContainerHook", pre(ncalls("generate.AddStartContainerHook")) + i, 1), hooks.StartContainer[i])
+//@   loop 6 invariant forall i int :: 0 <= i && i < len(hooks.Prestart) ==> hookIs(callarg("(*github.com/opencontainers/runtime-tools/generate.Generator).AddPreStartHook", old(ncalls("(*github.com/opencontainers/runtime-tools/generate.Generator).AddPreStartHook")) + i, 1), hooks.Prestart[i])
+//@   loop 6 invariant forall i int :: 0 <= i && i < len(hooks.Poststart) ==> hookIs(callarg("(*github.com/opencontainers/runtime-tools/generate.Generator).AddPostStartHook", old(ncalls("(*github.com/opencontainers/runtime-tools/generate.Generator).AddPostStartHook")) + i, 1), hooks.Poststart[i])
+//@   loop 6 invariant forall i int :: 0 <= i && i < len(hooks.Poststop) ==> hookIs(callarg("(*github.com/opencontainers/runtime-tools/generate.Generator).AddPostStopHook", old(ncalls("(*github.com/opencontainers/runtime-tools/generate.Generator).AddPostStopHook")) + i, 1), hooks.Poststop[i])
+//@   loop 6 invariant forall i int :: 0 <= i && i < len(hooks.CreateRuntime) ==> hookIs(callarg("generate.AddCreateRuntimeHook", old(ncalls("generate.AddCreateRuntimeHook")) + i, 1), hooks.CreateRuntime[i])
+//@   loop 6 invariant forall i int :: 0 <= i && i < len(hooks.CreateContainer) ==> hookIs(callarg("generate.AddCreateContainerHook", old(ncalls("generate.AddCreateContainerHook")) + i, 1), hooks.CreateContainer[i])
+
+// -- list-valued adjustments.  The embedded generator's list operations have loops; they are
+// -- external calls here (assumed to touch only the list they are named after), and these
+// -- contracts describe which of them are called, how often and with what.
+//@ extern (*github.com/opencontainers/runtime-tools/generate.Generator).RemoveDevice(g *generate.Generator, path string)
+//@   modifies g.Config.Linux.Devices, elems(g.Config.Linux.Devices)
+//@   ensures (old(g.Config) != nil ==> g.Config == old(g.Config)) && (old(g.Config.Process) != nil ==> g.Config.Process == old(g.Config.Process)) && (old(g.Config.Linux) != nil ==> g.Config.Linux == old(g.Config.Linux))
+//@ extern (*github.com/opencontainers/runtime-tools/generate.Generator).AddDevice(g *generate.Generator, device rspec.LinuxDevice)
+//@   modifies g.Config, g.Config.Linux, g.Config.Linux.Devices, elems(g.Config.Linux.Devices)
+//@   ensures (old(g.Config) != nil ==> g.Config == old(g.Config)) && (old(g.Config.Process) != nil ==> g.Config.Process == old(g.Config.Process)) && (old(g.Config.Linux) != nil ==> g.Config.Linux == old(g.Config.Linux))
+//@ extern (*github.com/opencontainers/runtime-tools/generate.Generator).AddLinuxResourcesDevice(g *generate.Generator, allow bool, devType string, major *int64, minor *int64, access string)
+//@   modifies g.Config, g.Config.Linux, g.Config.Linux.Resources, g.Config.Linux.Resources.Devices, elems(g.Config.Linux.Resources.Devices)
+//@   ensures (old(g.Config) != nil ==> g.Config == old(g.Config)) && (old(g.Config.Process) != nil ==> g.Config.Process == old(g.Config.Process)) && (old(g.Config.Linux) != nil ==> g.Config.Linux == old(g.Config.Linux))
+//@ extern (*github.com/opencontainers/runtime-tools/generate.Generator).RemoveMount(g *generate.Generator, dest string)
+//@   modifies g.Config, g.Config.Mounts, elems(g.Config.Mounts)
+//@   ensures (old(g.Config) != nil ==> g.Config == old(g.Config)) && (old(g.Config.Process) != nil ==> g.Config.Process == old(g.Config.Process)) && (old(g.Config.Linux) != nil ==> g.Config.Linux == old(g.Config.Linux))
+//@   ensures g.Config != nil && (old(g.Config) != nil ==> g.Config == old(g.Config))
+//@ extern (*github.com/opencontainers/runtime-tools/generate.Generator).AddMount(g *generate.Generator, mnt rspec.Mount)
+//@   modifies g.Config, g.Config.Mounts, elems(g.Config.Mounts)
+//@   ensures (old(g.Config) != nil ==> g.Config == old(g.Config)) && (old(g.Config.Process) != nil ==> g.Config.Process == old(g.Config.Process)) && (old(g.Config.Linux) != nil ==> g.Config.Linux == old(g.Config.Linux))
+//@   ensures g.Config != nil && (old(g.Config) != nil ==> g.Config == old(g.Config))
+//@ extern (*github.com/opencontainers/runtime-tools/generate.Generator).AddProcessEnv(g *generate.Generator, name string, value string)
+//@   modifies g.Config, g.Config.Process, g.Config.Process.Env, elems(g.Config.Process.Env), g.envMap, map(g.envMap)
+//@   ensures (old(g.Config) != nil ==> g.Config == old(g.Config)) && (old(g.Config.Process) != nil ==> g.Config.Process == old(g.Config.Process)) && (old(g.Config.Linux) != nil ==> g.Config.Linux == old(g.Config.Linux))
+//@ extern (*github.com/opencontainers/runtime-tools/generate.Generator).ClearProcessEnv(g *generate.Generator)
+//@   modifies g.Config.Process.Env, g.envMap
+//@   ensures (old(g.Config) != nil ==> g.Config == old(g.Config)) && (old(g.Config.Process) != nil ==> g.Config.Process == old(g.Config.Process)) && (old(g.Config.Linux) != nil ==> g.Config.Linux == old(g.Config.Linux))
+
+//@ pure noNilDevs(s []*nri.LinuxDevice) = forall i int :: 0 <= i && i < len(s) ==> allocated(s[i])
+//@ pure noNilMnts(s []*nri.Mount) = forall i int :: 0 <= i && i < len(s) ==> allocated(s[i])
+//@ pure noNilKVs(s []*nri.KeyValue) = forall i int :: 0 <= i && i < len(s) ==> allocated(s[i])
+
+// every device: its old entry is removed first; unless it is a pure removal it is added again
+// with the requested node and a matching allow rule in the device cgroup
+//@ func Generator.AdjustDevices
+//@   props C13
+//@   ensures [sect] sectionsKept(g)
+//@   requires g != nil && g.Generator != nil && noNilDevs(devices)
+//@   modifies @writes
+//@   ensures [rm]   ncalls("(*github.com/opencontainers/runtime-tools/generate.Generator).RemoveDevice") == old(ncalls("(*github.com/opencontainers/runtime-tools/generate.Generator).RemoveDevice")) + len(devices)
+//@   ensures [rmarg] forall i int :: 0 <= i && i < len(devices) ==> (let p = callarg("(*github.com/opencontainers/runtime-tools/generate.Generator).RemoveDevice", old(ncalls("(*github.com/opencontainers/runtime-tools/generate.Generator).RemoveDevice")) + i, 1) in
+//@                     (marked(devices[i].Path) ==> "-" + p == devices[i].Path) && (!marked(devices[i].Path) ==> p == devices[i].Path))
+//@   ensures [add]  (forall i int :: 0 <= i && i < len(devices) ==> !marked(devices[i].Path)) ==> ncalls("(*github.com/opencontainers/runtime-tools/generate.Generator).AddDevice") == old(ncalls("(*github.com/opencontainers/runtime-tools/generate.Generator).AddDevice")) + len(devices)
+//@                  && (forall i int :: 0 <= i && i < len(devices) ==> (let d = callarg("(*github.com/opencontainers/runtime-tools/generate.Generator).AddDevice", old(ncalls("(*github.com/opencontainers/runtime-tools/generate.Generator).AddDevice")) + i, 1) in
+//@                        d.Path == devices[i].Path && d.Type == devices[i].Type && d.Major == devices[i].Major && d.Minor == devices[i].Minor))
+//@   ensures [none] (forall i int :: 0 <= i && i < len(devices) ==> marked(devices[i].Path)) ==> ncalls("(*github.com/opencontainers/runtime-tools/generate.Generator).AddDevice") == old(ncalls("(*github.com/opencontainers/runtime-tools/generate.Generator).AddDevice"))
+//@   loop 1 invariant 0 <= idx + 1 && idx + 1 <= len(devices) && sectionsKept(g)
+//@   loop 1 invariant ncalls("(*github.com/opencontainers/runtime-tools/generate.Generator).RemoveDevice") == old(ncalls("(*github.com/opencontainers/runtime-tools/generate.Generator).RemoveDevice")) + idx + 1
+//@   loop 1 invariant forall i int :: 0 <= i && i <= idx ==> (let p = callarg("(*github.com/opencontainers/runtime-tools/generate.Generator).RemoveDevice", old(ncalls("(*github.com/opencontainers/runtime-tools/generate.Generator).RemoveDevice")) + i, 1) in
+//@                     (marked(devices[i].Path) ==> "-" + p == devices[i].Path) && (!marked(devices[i].Path) ==> p == devices[i].Path))
+//@   loop 1 invariant (forall i int :: 0 <= i && i <= idx ==> !marked(devices[i].Path)) ==> ncalls("(*github.com/opencontainers/runtime-tools/generate.Generator).AddDevice") == old(ncalls("(*github.com/opencontainers/runtime-tools/generate.Generator).AddDevice")) + idx + 1
+//@                  && (forall i int :: 0 <= i && i <= idx ==> (let d = callarg("(*github.com/opencontainers/runtime-tools/generate.Generator).AddDevice", old(ncalls("(*github.com/opencontainers/runtime-tools/generate.Generator).AddDevice")) + i, 1) in
+//@                        d.Path == devices[i].Path && d.Type == devices[i].Type && d.Major == devices[i].Major && d.Minor == devices[i].Minor))
+//@   loop 1 invariant (forall i int :: 0 <= i && i <= idx ==> marked(devices[i].Path)) ==> ncalls("(*github.com/opencontainers/runtime-tools/generate.Generator).AddDevice") == old(ncalls("(*github.com/opencontainers/runtime-tools/generate.Generator).AddDevice"))
+
+// the host's mount table is outside the model: any answer is possible, nothing of the spec is touched
+//@ func ensurePropagation
+//@   props C13
+//@   trusted
+//@   ensures true
+
+// every mount: an existing mount at that destination is removed first; unless it is a pure removal
+// the converted mount is added; finally the list is sorted parents-first (sortMounts)
+//@ func Generator.AdjustMounts
+//@   props C13
+//@   ensures [sect] sectionsKept(g)
+//@   requires g != nil && g.Generator != nil && cfg(g) != nil && cfg(g).Linux != nil && noNilMnts(mounts)
+//@   modifies @writes
+//@   ensures [noop]   len(mounts) == 0 ==> result == nil && ncalls("(*github.com/opencontainers/runtime-tools/generate.Generator).RemoveMount") == old(ncalls("(*github.com/opencontainers/runtime-tools/generate.Generator).RemoveMount"))
+//@                    && ncalls("(*github.com/opencontainers/runtime-tools/generate.Generator).AddMount") == old(ncalls("(*github.com/opencontainers/runtime-tools/generate.Generator).AddMount"))
+//@   ensures [sorted] len(mounts) > 0 && result == nil ==> (forall i int :: forall j int :: 0 <= i && i < j && j < len(cfg(g).Mounts) ==> !mless(cfg(g).Mounts[j].Destination, cfg(g).Mounts[i].Destination))
+//@   ensures [rm]     result == nil ==> ncalls("(*github.com/opencontainers/runtime-tools/generate.Generator).RemoveMount") == old(ncalls("(*github.com/opencontainers/runtime-tools/generate.Generator).RemoveMount")) + len(mounts)
+//@                    && (forall i int :: 0 <= i && i < len(mounts) ==> (let p = callarg("(*github.com/opencontainers/runtime-tools/generate.Generator).RemoveMount", old(ncalls("(*github.com/opencontainers/runtime-tools/generate.Generator).RemoveMount")) + i, 1) in
+//@                          (marked(mounts[i].Destination) ==> "-" + p == mounts[i].Destination) && (!marked(mounts[i].Destination) ==> p == mounts[i].Destination)))
+//@   ensures [add]    result == nil && (forall i int :: 0 <= i && i < len(mounts) ==> !marked(mounts[i].Destination)) ==> ncalls("(*github.com/opencontainers/runtime-tools/generate.Generator).AddMount") == old(ncalls("(*github.com/opencontainers/runtime-tools/generate.Generator).AddMount")) + len(mounts)
+//@                    && (forall i int :: 0 <= i && i < len(mounts) ==> (let d = callarg("(*github.com/opencontainers/runtime-tools/generate.Generator).AddMount", old(ncalls("(*github.com/opencontainers/runtime-tools/generate.Generator).AddMount")) + i, 1) in
+//@                          d.Destination == mounts[i].Destination && d.Type == mounts[i].Type && d.Source == mounts[i].Source && len(d.Options) == len(mounts[i].Options)))
+//@   loop 1 invariant 0 <= idx + 1 && idx + 1 <= len(mounts) && cfg(g) == old(cfg(g)) && cfg(g).Linux != nil && sectionsKept(g)
+//@   loop 1 invariant ncalls("(*github.com/opencontainers/runtime-tools/generate.Generator).RemoveMount") == old(ncalls("(*github.com/opencontainers/runtime-tools/generate.Generator).RemoveMount")) + idx + 1
+//@   loop 1 invariant forall i int :: 0 <= i && i <= idx ==> (let p = callarg("(*github.com/opencontainers/runtime-tools/generate.Generator).RemoveMount", old(ncalls("(*github.com/opencontainers/runtime-tools/generate.Generator).RemoveMount")) + i, 1) in
+//@                          (marked(mounts[i].Destination) ==> "-" + p == mounts[i].Destination) && (!marked(mounts[i].Destination) ==> p == mounts[i].Destination))
+//@   loop 1 invariant (forall i int :: 0 <= i && i <= idx ==> !marked(mounts[i].Destination)) ==> ncalls("(*github.com/opencontainers/runtime-tools/generate.Generator).AddMount") == old(ncalls("(*github.com/opencontainers/runtime-tools/generate.Generator).AddMount")) + idx + 1
+//@                    && (forall i int :: 0 <= i && i <= idx ==> (let d = callarg("(*github.com/opencontainers/runtime-tools/generate.Generator).AddMount", old(ncalls("(*github.com/opencontainers/runtime-tools/generate.Generator).AddMount")) + i, 1) in
+//@                          d.Destination == mounts[i].Destination && d.Type == mounts[i].Type && d.Source == mounts[i].Source && len(d.Options) == len(mounts[i].Options)))
+
+// environment: the variables of the spec are rewritten once (only if there is something to
+// apply), then the remaining new variables are appended in the order of the adjustment
+//@ func Generator.AdjustEnv
+//@   props C13
+//@   ensures [sect] sectionsKept(g)
+//@   requires g != nil && g.Generator != nil && noNilKVs(env)
+//@   modifies @writes
+//@   ensures [noop]  len(env) == 0 ==> ncalls("(*github.com/opencontainers/runtime-tools/generate.Generator).AddProcessEnv") == old(ncalls("(*github.com/opencontainers/runtime-tools/generate.Generator).AddProcessEnv"))
+//@                   && ncalls("(*github.com/opencontainers/runtime-tools/generate.Generator).ClearProcessEnv") == old(ncalls("(*github.com/opencontainers/runtime-tools/generate.Generator).ClearProcessEnv"))
+//@   ensures [clear] ncalls("(*github.com/opencontainers/runtime-tools/generate.Generator).ClearProcessEnv") <= old(ncalls("(*github.com/opencontainers/runtime-tools/generate.Generator).ClearProcessEnv")) + 1
+//@   loop 1 invariant 0 <= idx + 1 && idx + 1 <= len(env) && sectionsKept(g)
+//@   loop 1 invariant mod != nil
+//@   loop 1 invariant ncalls("(*github.com/opencontainers/runtime-tools/generate.Generator).AddProcessEnv") == old(ncalls("(*github.com/opencontainers/runtime-tools/generate.Generator).AddProcessEnv")) && ncalls("(*github.com/opencontainers/runtime-tools/generate.Generator).ClearProcessEnv") == old(ncalls("(*github.com/opencontainers/runtime-tools/generate.Generator).ClearProcessEnv"))
+//@   loop 1 invariant (idx == 0 - 1 ==> len(mod) == 0) && (forall k string :: has(mod, k) ==> allocated(mod[k]))
+//@   loop 2 invariant sectionsKept(g)
+//@   loop 2 invariant 0 <= idx + 1 && idx + 1 <= len(old) && mod != nil && (forall k string :: has(mod, k) ==> allocated(mod[k]))
+//@   loop 2 invariant ncalls("(*github.com/opencontainers/runtime-tools/generate.Generator).ClearProcessEnv") == pre(ncalls("(*github.com/opencontainers/runtime-tools/generate.Generator).ClearProcessEnv"))
+//@   loop 3 invariant 0 <= idx + 1 && idx + 1 <= len(env) && sectionsKept(g)
+//@   loop 3 invariant ncalls("(*github.com/opencontainers/runtime-tools/generate.Generator).ClearProcessEnv") == pre(ncalls("(*github.com/opencontainers/runtime-tools/generate.Generator).ClearProcessEnv"))
+//@   loop 3 invariant ncalls("(*github.com/opencontainers/runtime-tools/generate.Generator).AddProcessEnv") <= pre(ncalls("(*github.com/opencontainers/runtime-tools/generate.Generator).AddProcessEnv")) + idx + 1
+
+// block I/O and RDT classes: nil or no resolver - nothing; "" - cleared; otherwise whatever the resolver returns
+//@ func Generator.AdjustBlockIOClass
+//@   props C13
+//@   ensures [sect] sectionsKept(g)
+//@   requires g != nil && g.Generator != nil
+//@   modifies @writes
+//@   ensures [noop]  blockIOClass == nil || g.resolveBlockIO == nil ==> result == nil && cfg(g) == old(cfg(g)) && ncalls("func:generate.Generator.resolveBlockIO") == old(ncalls("func:generate.Generator.resolveBlockIO"))
+//@   ensures [clear] blockIOClass != nil && g.resolveBlockIO != nil && deref(blockIOClass) == "" ==> result == nil && sres(g) != nil && sres(g).BlockIO == nil
+//@   ensures [set]   blockIOClass != nil && g.resolveBlockIO != nil && deref(blockIOClass) != "" ==> ncalls("func:generate.Generator.resolveBlockIO") == old(ncalls("func:generate.Generator.resolveBlockIO")) + 1
+//@                   && callarg("func:generate.Generator.resolveBlockIO", old(ncalls("func:generate.Generator.resolveBlockIO")), 1) == deref(blockIOClass)
+//@                   && (let err = callret("func:generate.Generator.resolveBlockIO", old(ncalls("func:generate.Generator.resolveBlockIO")), 1) in
+//@                       (err != nil ==> result != nil && cfg(g) == old(cfg(g))) && (err == nil ==> result == nil && sres(g) != nil && sres(g).BlockIO == callret("func:generate.Generator.resolveBlockIO", old(ncalls("func:generate.Generator.resolveBlockIO")), 0)))
+//@ func Generator.AdjustRdtClass
+//@   props C13
+//@   ensures [sect] sectionsKept(g)
+//@   requires g != nil && g.Generator != nil
+//@   modifies @writes
+//@   ensures [noop]  rdtClass == nil || g.resolveRdt == nil ==> result == nil && cfg(g) == old(cfg(g)) && ncalls("func:generate.Generator.resolveRdt") == old(ncalls("func:generate.Generator.resolveRdt"))
+//@   ensures [clear] rdtClass != nil && g.resolveRdt != nil && deref(rdtClass) == "" ==> result == nil && cfg(g).Linux != nil && cfg(g).Linux.IntelRdt == nil
+//@   ensures [set]   rdtClass != nil && g.resolveRdt != nil && deref(rdtClass) != "" ==> ncalls("func:generate.Generator.resolveRdt") == old(ncalls("func:generate.Generator.resolveRdt")) + 1
+//@                   && callarg("func:generate.Generator.resolveRdt", old(ncalls("func:generate.Generator.resolveRdt")), 1) == deref(rdtClass)
+//@                   && (let err = callret("func:generate.Generator.resolveRdt", old(ncalls("func:generate.Generator.resolveRdt")), 1) in
+//@                       (err != nil ==> result != nil && cfg(g) == old(cfg(g))) && (err == nil ==> result == nil && cfg(g).Linux != nil && cfg(g).Linux.IntelRdt == callret("func:generate.Generator.resolveRdt", old(ncalls("func:generate.Generator.resolveRdt")), 0)))
+
+// CDI devices: the injector gets the spec and exactly the names, in order
+//@ pure noNilCDIg(s []*nri.CDIDevice) = forall i int :: 0 <= i && i < len(s) ==> allocated(s[i])
+//@ func Generator.InjectCDIDevices
+//@   props C13
+//@   ensures [sect] sectionsKept(g)
+//@   requires g != nil && g.Generator != nil && noNilCDIg(devices)
+//@   modifies @writes
+//@   ensures [noop]  len(devices) == 0 || g.injectCDIDevices == nil ==> result == nil && ncalls("func:generate.Generator.injectCDIDevices") == old(ncalls("func:generate.Generator.injectCDIDevices"))
+//@   ensures [call]  len(devices) != 0 && g.injectCDIDevices != nil ==> ncalls("func:generate.Generator.injectCDIDevices") == old(ncalls("func:generate.Generator.injectCDIDevices")) + 1
+//@                   && callarg("func:generate.Generator.injectCDIDevices", old(ncalls("func:generate.Generator.injectCDIDevices")), 1) == cfg(g)
+//@                   && result == callret("func:generate.Generator.injectCDIDevices", old(ncalls("func:generate.Generator.injectCDIDevices")), 0)
+//@                   && (let names = callarg("func:generate.Generator.injectCDIDevices", old(ncalls("func:generate.Generator.injectCDIDevices")), 2) in
+//@                       len(names) == len(devices) && (forall i int :: 0 <= i && i < len(devices) ==> names[i] == devices[i].Name))
+//@   loop 1 invariant 0 <= idx + 1 && idx + 1 <= len(devices) && len(names) == idx + 1 && fresh(names)
+//@   loop 1 invariant forall i int :: 0 <= i && i <= idx ==> names[i] == devices[i].Name
+
+// -- the whole adjustment: every part is applied, in a fixed order, and the first failure is returned.
+// Mounts are applied after everything that may add mounts and are left sorted; rlimits come last.
+//@ pure adjOK(a *nri.ContainerAdjustment) = noNilKVs(a.Env) && noNilMnts(a.Mounts) && noNilCDIg(a.CDIDevices)
+//@      && (a.Hooks != nil ==> noNilHooks(a.Hooks.Prestart) && noNilHooks(a.Hooks.Poststart) && noNilHooks(a.Hooks.Poststop) && noNilHooks(a.Hooks.CreateRuntime) && noNilHooks(a.Hooks.CreateContainer) && noNilHooks(a.Hooks.StartContainer))
+//@      && (a.Linux != nil ==> noNilDevs(a.Linux.Devices) && (a.Linux.Resources != nil ==> noNilHPg(a.Linux.Resources.HugepageLimits)))
+//@ func Generator.Adjust
+//@   props C13
+//@   requires g != nil && g.Generator != nil && g.filterAnnotations != nil && cfg(g) != nil && cfg(g).Process != nil && cfg(g).Linux != nil
+//@   requires adjust != nil ==> adjOK(adjust)
+//@   modifies @writes
+//@   ensures [nil]     adjust == nil ==> result == nil
+//@   ensures [sorted]  adjust != nil && result == nil && len(adjust.Mounts) > 0 ==> (forall i int :: forall j int :: 0 <= i && i < j && j < len(cfg(g).Mounts) ==> !mless(cfg(g).Mounts[j].Destination, cfg(g).Mounts[i].Destination))
+//@   ensures [rlimits] adjust != nil && result == nil && (forall i int :: 0 <= i && i < len(adjust.Rlimits) ==> adjust.Rlimits[i] != nil) ==>
+//@                     (forall i int :: 0 <= i && i < len(adjust.Rlimits) ==> cfg(g).Process.Rlimits[len(cfg(g).Process.Rlimits) - len(adjust.Rlimits) + i].Type == adjust.Rlimits[i].Type
+//@                         && cfg(g).Process.Rlimits[len(cfg(g).Process.Rlimits) - len(adjust.Rlimits) + i].Hard == adjust.Rlimits[i].Hard && cfg(g).Process.Rlimits[len(cfg(g).Process.Rlimits) - len(adjust.Rlimits) + i].Soft == adjust.Rlimits[i].Soft)
+//@   ensures [annerr]  adjust != nil && callret("func:generate.Generator.filterAnnotations", old(ncalls("func:generate.Generator.filterAnnotations")), 1) != nil ==> result != nil
